@@ -1484,14 +1484,17 @@ func sortedMapKeys(rv reflect.Value) []reflect.Value {
 		if ca, cb := mapKeyClass(a), mapKeyClass(b); ca != cb {
 			return ca < cb
 		}
+		// (keys that are equal as values but of different types - int(1) and
+		// int64(1) in an interface-keyed map - fall through to the tie-break on
+		// the type below)
 		switch {
-		case a.CanInt() && b.CanInt():
+		case a.CanInt() && b.CanInt() && a.Int() != b.Int():
 			return a.Int() < b.Int()
-		case a.CanUint() && b.CanUint():
+		case a.CanUint() && b.CanUint() && a.Uint() != b.Uint():
 			return a.Uint() < b.Uint()
-		case a.CanFloat() && b.CanFloat():
+		case a.CanFloat() && b.CanFloat() && a.Float() != b.Float():
 			return a.Float() < b.Float()
-		case a.Kind() == reflect.String && b.Kind() == reflect.String:
+		case a.Kind() == reflect.String && b.Kind() == reflect.String && a.String() != b.String():
 			return a.String() < b.String()
 		}
 		sa, sb := fmt.Sprint(a), fmt.Sprint(b)
